@@ -24,13 +24,21 @@ def design_check(chk):
 
 
 def validate(chk, tpath, what):
+    """TLC judges every event; events matching a named deviation of an OPEN known finding are
+    counted as KNOWN-FINDING observations, everything else outside the Contract is returned."""
     events = vp.read_ndjson(tpath)
-    r = vp.tlc(os.path.join(vp.SPEC, "Trace_Addr.tla"), os.path.join(vp.SPEC, "Trace_Addr.cfg"),
+    cfg = os.path.join(os.path.dirname(tpath), "Trace_Addr_%s.cfg" % what.replace("/", "_"))
+    with open(cfg, "w") as f:
+        f.write("SPECIFICATION Spec\nCONSTANT A = 8\nCONSTANT OpenFindings = {%s}\n" %
+                ", ".join('"%s"' % k for k in sorted(chk.open)))
+    r = vp.tlc(os.path.join(vp.SPEC, "Trace_Addr.tla"), cfg,
                name="Trace_Addr_" + what, workers=1, timeout=1100, env={"TRACE": tpath}, xmx="8g")
     res = r.printed("RESULT")
     if len(res) != 1 or res[0]["n"] != len(events):
         raise vp.Broken("trace validation did not complete (%s): %s" % (what, r.out[-1500:]))
     chk.add_tlc("Trace_Addr on " + what, r, "constant-level evaluation of the Contract on %d recorded events" % len(events))
+    for k in res[0].get("known", []):
+        chk.known(k["id"])
     return events, [(b, events[b - 1]) for b in res[0]["bad"]]
 
 
@@ -45,3 +53,11 @@ def wide(w):
 
 def pretty(ev):
     return {k: wide(v) for k, v in ev.items()}
+
+
+def pretty_bulk(ev):
+    e = dict(ev)
+    e["ranges"] = [{"side": r["side"], "start": r["start"], "bytes": wide(r["bytes"])} for r in ev["ranges"]]
+    if "bytes_max" in e:
+        e["bytes_max"] = wide(e["bytes_max"])
+    return e
